@@ -805,7 +805,9 @@ def runSection (r : Report) (s : Section) : Report := Id.run do
             let cached := sent.head? ≠ some "evalsha!"
             let want := modelCmds cfg (callOfOp d.st op) d.down cached none .nilNoErr
             r := r.addCover (if cached then "trace-evalsha" else if d.down then "trace-evalsha-failed" else "trace-evalsha-noscript-eval")
-            if sent.any (fun x => x ≠ "evalsha" ∧ x ≠ "evalsha!" ∧ x ≠ "eval" ∧ x ≠ "eval!") then
+            if sent.isEmpty then
+              r := r.violation s.idx l.idx s!"command trace: {callName op} by instance {whoOf op} answered {res} WITHOUT asking Redis (no command was sent): who holds the lock is decided by the script in Redis alone, a client-side guess about the lease tells a holder false or a non-holder true op=[{joinSp l.op}] impl=[{joinSp l.obs}]"
+            else if sent.any (fun x => x ≠ "evalsha" ∧ x ≠ "evalsha!" ∧ x ≠ "eval" ∧ x ≠ "eval!") then
               r := r.violation s.idx l.idx s!"command trace: {callName op} by instance {whoOf op} sent [{ct}] — a call must put its own script run (EVALSHA, EVAL after NOSCRIPT) on the wire and nothing else; any other command is outside the one atomic step the property rests on (an unconditional DEL / SET frees or takes another instance's lock) op=[{joinSp l.op}] impl=[{joinSp l.obs}]"
             else if ct ≠ want then
               r := r.mismatch s.idx l.idx s!"cmds={want}" s!"cmds={ct}"
